@@ -41,6 +41,10 @@ pub fn pair<H: DShape, T: DShape>(g: &mut Grid, maxn: usize) {
                         let ok = thin.heap_ptr() as usize == blk && thin.header.length == n && thin.slice.len() == n && thin.header.header.ok(1) && thin.slice.iter().enumerate().all(|(i, e)| e.ok(i as u32 + 2)) && ThinArc::strong_count(&thin) == 1 + shared as usize;
                         if !ok {
                             g.fail("thin-differs", &case, format!("the ThinArc does not show the fat Arc's allocation/contents/count (block {:#x} vs {:#x}, recorded {}, slice {}, count {})", thin.heap_ptr() as usize, blk, thin.header.length, thin.slice.len(), ThinArc::strong_count(&thin)));
+                            // its view of the allocation is wrong: releasing it could walk a bogus slice
+                            std::mem::forget(thin);
+                            std::mem::forget(co);
+                            continue;
                         }
                         // thin -> fat -> thin: same allocation, no counter write
                         let r1 = rmwlog::len();
